@@ -236,3 +236,89 @@ Section DefaultsOutOfSpan.
     reflexivity.
   Qed.
 End DefaultsOutOfSpan.
+
+(* ---- the sharp guard: only the labels of the two END periods need to be unambiguous ----
+   solve(start, end) = the fold over positions a..b as soon as the label of period a and the label of period b are each
+   carried by exactly one period — other periods may share labels among themselves.  (The kept finding
+   default_range_repeated_label_refuted is exactly the failure of this guard for a DEFAULT end.) *)
+Lemma unique_label_position (span : list Z) x : count_of x span = 1%nat ->
+  forall i j, nth_error span i = Some x -> nth_error span j = Some x -> i = j.
+Proof.
+  unfold count_of. induction span as [|y r IH]; intros Hc i j Hi Hj; [destruct i; discriminate|].
+  cbn [filter] in Hc. destruct (Z.eqb x y) eqn:E.
+  - cbn [length] in Hc. assert (Hr : length (filter (Z.eqb x) r) = 0%nat) by lia.
+    assert (Hnot : forall q, nth_error r q <> Some x).
+    { intros q Hq. apply nth_error_In in Hq.
+      assert (In x (filter (Z.eqb x) r)) by (apply filter_In; split; [exact Hq|apply Z.eqb_refl]).
+      destruct (filter (Z.eqb x) r); [contradiction|discriminate]. }
+    destruct i as [|i], j as [|j]; cbn [nth_error] in *; try reflexivity; exfalso; eapply Hnot; eassumption.
+  - apply Z.eqb_neq in E.
+    destruct i as [|i]; cbn [nth_error] in Hi; [congruence|].
+    destruct j as [|j]; cbn [nth_error] in Hj; [congruence|].
+    f_equal. exact (IH Hc i j Hi Hj).
+Qed.
+
+Theorem locate_span_unique k span x i :
+  nth_error span i = Some x -> count_of x span = 1%nat -> locate_span k span x = LInt (Z.of_nat i).
+Proof.
+  intros Hi Hc. rewrite locate_span_cases.
+  assert (Hidx : locate_index span x = LInt (Z.of_nat i)).
+  { destruct (index_of_first span x 0 (nth_error_In _ _ Hi)) as (i' & H1 & H2 & _).
+    rewrite (unique_label_position span x Hc i i' Hi H2). unfold locate_index. rewrite H1. reflexivity. }
+  destruct k.
+  - exact Hidx.
+  - unfold locate_unique. rewrite Hc. exact Hidx.
+  - unfold locate_getloc. rewrite Hc. exact Hidx.
+Qed.
+
+Section UniqueEnds.
+  Variable num : Type.
+  Variables (sub : num -> num -> num) (absf : num -> num) (ltb : num -> num -> bool)
+            (isfin : num -> bool) (zero : num).
+  Variables (ev before after : hook num).
+  Notation run_periods := (run_periods num sub absf ltb isfin zero ev before after Z).
+  Notation solve_M k span := (solve_M num sub absf ltb isfin zero ev before after Z (locate_span k span)).
+
+  Lemma iter_periods_unique_ends k span d start end_ a b xs xe :
+    nth_error span a = Some xs -> nth_error span b = Some xe ->
+    count_of xs span = 1%nat -> count_of xe span = 1%nat ->
+    resolves_start Z d span start a -> resolves_end Z d span end_ b ->
+    iter_periods_M Z (locate_span k span) d span start end_ = Ret ((S b - a)%nat, periods Z span a b).
+  Proof.
+    intros Exs Exe Cs Ce Hs He.
+    pose proof (resolves_start_lt _ _ _ _ _ Hs) as Ha. pose proof (resolves_end_lt _ _ _ _ _ He) as Hb.
+    unfold SolveAll.iter_periods_M.
+    replace (length span =? 0)%nat with false by (symmetry; apply Nat.eqb_neq; lia).
+    assert (H1 : match start with Some x => Some x | None => py_get span (Z.of_nat (lags d)) end = Some xs).
+    { destruct start as [x|]; cbn in Hs; [congruence|]. destruct Hs as [-> _].
+      unfold py_get. rewrite py_pos_nonneg by lia. rewrite Nat2Z.id. exact Exs. }
+    assert (H2 : match end_ with Some x => Some x | None => py_get span (-1 - Z.of_nat (leads d)) end = Some xe).
+    { destruct end_ as [x|]; cbn in He; [congruence|].
+      unfold py_get. rewrite py_pos_neg by lia.
+      replace (Z.to_nat (-1 - Z.of_nat (leads d) + Z.of_nat (length span))) with b by lia. exact Exe. }
+    rewrite H1, H2, (locate_span_unique k span xs a Exs Cs), (locate_span_unique k span xe b Exe Ce).
+    rewrite py_range_nat, py_slice_nat by lia. rewrite map_length, seq_length. reflexivity.
+  Qed.
+
+  Theorem solve_unique_ends k span d o start end_ s a b xs xe :
+    min_iter o <= max_iter o ->
+    nth_error span a = Some xs -> nth_error span b = Some xe ->
+    count_of xs span = 1%nat -> count_of xe span = 1%nat ->
+    resolves_start Z d span start a -> resolves_end Z d span end_ b ->
+    solve_M k span d o span start end_ s =
+    match run_periods d o (periods Z span a b) s [] with
+    | (s', Ret vs) => (s', Ret (mkRes (S b - a) vs))
+    | (s', Raise e) => (s', Raise e)
+    end.
+  Proof.
+    intros Hmm Exs Exe Cs Ce Hs He. unfold SolveAll.solve_M.
+    replace (max_iter o <? min_iter o) with false by lia.
+    assert (B1 : bad_label Z (locate_span k span) start = false).
+    { destruct start as [x|]; [|reflexivity]. cbn in Hs. assert (x = xs) by congruence. subst x.
+      cbn. rewrite (locate_span_unique k span xs a Exs Cs). reflexivity. }
+    assert (B2 : bad_label Z (locate_span k span) end_ = false).
+    { destruct end_ as [x|]; [|reflexivity]. cbn in He. assert (x = xe) by congruence. subst x.
+      cbn. rewrite (locate_span_unique k span xe b Exe Ce). reflexivity. }
+    rewrite B1, B2, (iter_periods_unique_ends k span d start end_ a b xs xe Exs Exe Cs Ce Hs He). reflexivity.
+  Qed.
+End UniqueEnds.
